@@ -138,6 +138,9 @@ def setattr_as_store(body):
     return [T().visit(s) for s in body]
 
 
+_unroll_counter = [0]
+
+
 def unroll_literal_loops(body):
     """for x in (a, b, c): S   ->   S[x:=a]; S[x:=b]; S[x:=c]   (only for loops over displays of plain names/attributes)"""
     out = []
@@ -149,7 +152,11 @@ def unroll_literal_loops(body):
         if isinstance(st, ast.For) and isinstance(st.iter, (ast.Tuple, ast.List)) and not st.orelse \
                 and all(isinstance(e, (ast.Name, ast.Attribute, ast.Tuple, ast.Constant)) for e in st.iter.elts) \
                 and not any(isinstance(x, (ast.Break, ast.Continue)) for s in st.body for x in ast.walk(s)):
-            for e in st.iter.elts:
+            # locals assigned inside the body get a fresh name per unrolled copy, so that each copy's value stays a single
+            # assignment that can be expanded
+            body_stores = sorted({x.id for s in st.body for x in ast.walk(s) if isinstance(x, ast.Name) and isinstance(x.ctx, ast.Store)}
+                                 - {x.id for x in ast.walk(st.target) if isinstance(x, ast.Name)})
+            for k_, e in enumerate(st.iter.elts):
                 if isinstance(st.target, ast.Name):
                     m = {st.target.id: e}
                 elif isinstance(st.target, ast.Tuple) and isinstance(e, ast.Tuple) and len(e.elts) == len(st.target.elts) and all(isinstance(t, ast.Name) for t in st.target.elts):
@@ -159,8 +166,19 @@ def unroll_literal_loops(body):
                 if m is None:
                     out.append(st)
                     break
-                for s in st.body:
-                    out.append(_Sub(m, 1).visit(copy.deepcopy(s)))
+                copy_body = [_Sub(m, 1).visit(copy.deepcopy(s)) for s in st.body]
+                if body_stores:
+                    _unroll_counter[0] += 1
+                    ren = {nm: '%s__u%d' % (nm, _unroll_counter[0]) for nm in body_stores}
+
+                    class _R(ast.NodeTransformer):
+                        def visit_Name(self, n):
+                            if n.id in ren:
+                                return ast.copy_location(ast.Name(id=ren[n.id], ctx=n.ctx), n)
+                            return n
+                    copy_body = [_R().visit(s) for s in copy_body]
+                # nested literal loops inside this copy are unrolled with the substituted values
+                out += unroll_literal_loops(copy_body)
             continue
         out.append(st)
     return out
